@@ -2,7 +2,7 @@
     read_loop2, net_read2) is the reader of C05 (Model/NetRead.v) with the end of the
     stream told apart, so the stream lemma of C05 carries over; a reset leaves nothing
     behind. *)
-From Qv Require Import Common.Bytes Gen.GenNetio Model.NetRead Spec.LineSpec Proofs.NetReadProofs Model.TlsClient.
+From Qv Require Import Common.Bytes Gen.GenNetio Gen.GenStarttls Model.NetRead Spec.LineSpec Proofs.NetReadProofs Model.TlsClient.
 
 Definition erase (it : ritem) : item :=
   match it with
@@ -79,8 +79,9 @@ Proof.
   destruct (negb valid && Nat.eqb p (length b) && N.eqb (nth (p - 1) b 0%N) CR); [eapply IH; eassumption|discriminate].
 Qed.
 
-Lemma long_end_reset e2 s' : (long_end, {| inn := []; en := e2 |}) = (RReset, s') -> s' = {| inn := []; en := e2 |}.
-Proof. intros H. inversion H; subst. reflexivity. Qed.
+(** whichever way loop_long() reads (Gen: [ST_LOOPLONG_PASSES_FATAL]), a reset behind it leaves the state of a reset *)
+Lemma long_end_is_reset e2 s' : (long_end, {| inn := []; en := e2 |}) = (RReset, s') -> s' = {| inn := []; en := e2 |}.
+Proof. unfold long_end. destruct ST_LOOPLONG_PASSES_FATAL; intros H; inversion H; subst. reflexivity. Qed.
 
 Lemma read_loop2_reset fuel : forall buf e s',
   read_loop2 fuel buf e = (RReset, s') -> inn s' = [] /\ rest (en s') = [].
@@ -94,11 +95,11 @@ Proof.
   - destruct valid; [discriminate|].
     destruct (Nat.eqb p' (LINEINBUF - 1) && N.eqb (nth (p' - 1) (buf ++ d) 0%N) CR); [|discriminate].
     destruct (loop_long (S (length (rest e1))) e1 true) as [[i|] e2] eqn:El; [discriminate|].
-    apply long_end_reset in H. subst s'. cbn [inn en]. split; [reflexivity|].
+    apply long_end_is_reset in H. subst s'. cbn [inn en]. split; [reflexivity|].
     eapply loop_long_none; [|exact El]. lia.
   - destruct (Nat.ltb (length (buf ++ d)) (LINEINBUF - 1)); [eapply IH; eassumption|].
     destruct (loop_long (S (length (rest e1))) e1 false) as [[i|] e2] eqn:El; [discriminate|].
-    apply long_end_reset in H. subst s'. cbn [inn en]. split; [reflexivity|].
+    apply long_end_is_reset in H. subst s'. cbn [inn en]. split; [reflexivity|].
     eapply loop_long_none; [|exact El]. lia.
 Qed.
 
